@@ -118,6 +118,7 @@ def dtor_runs(res, tier, seed):
 def extra(local, sc, cfg, sr, hev, wire, out):
     from props import acceptors
     acceptors.barrier(local, sc, cfg, hev, wire)
+    acceptors.barrier_me(local, sc, cfg, hev, wire)
 
 
 def run(tier, seed, model_ok=True):
